@@ -261,9 +261,10 @@ def _parse_oracle(args, obs):
     return True, fails, _note(g, mode=mode, word=list(word), member=member, reference=outcome)
 
 
-def _parse_common(cond, raw, prods, v, mode, word):
+def _parse_common(cond, raw, prods, v, mode, w, wlen):
     if not _valid(prods, v) or not _ll1(prods, v):
-        return chx.assumed_away(cond)
+        return chx.assumed_away(cond)     # before the word is decoded: one path for all words
+    word = enc.decode_word(w, wlen, WORD_TABLE)
     chx.enter(cond, raw)
     parser = LLOneParser(_build(prods, v, mode))
     res = chx.guarded(parser.get_llone_parse_tree, word)
@@ -280,8 +281,7 @@ def c14_parse(t: T12, p: int, mode: int, w: W3, wlen: int) -> bool:
     """
     prods = enc.decode_cfg(t, p, 2, 2, 2)
     md = enc.pick(mode, MODES)
-    word = enc.decode_word(w, wlen, WORD_TABLE)
-    return _parse_common("c14_parse", (t, p, mode, w, wlen), prods, 2, md, word)
+    return _parse_common("c14_parse", (t, p, mode, w, wlen), prods, 2, md, w, wlen)
 
 
 def c14_parse_v3(t: T16, p: int, mode: int, w: W3, wlen: int) -> bool:
@@ -294,8 +294,7 @@ def c14_parse_v3(t: T16, p: int, mode: int, w: W3, wlen: int) -> bool:
     """
     prods = enc.decode_cfg(t, p, 3, 2, 2)
     md = enc.pick(mode, MODES)
-    word = enc.decode_word(w, wlen, WORD_TABLE)
-    return _parse_common("c14_parse_v3", (t, p, mode, w, wlen), prods, 3, md, word)
+    return _parse_common("c14_parse_v3", (t, p, mode, w, wlen), prods, 3, md, w, wlen)
 
 
 def c14_parse_b3(t: T15, p: int, mode: int, w: W3, wlen: int) -> bool:
@@ -308,8 +307,7 @@ def c14_parse_b3(t: T15, p: int, mode: int, w: W3, wlen: int) -> bool:
     """
     prods = enc.decode_cfg(t, p, 2, 2, 3)
     md = enc.pick(mode, MODES)
-    word = enc.decode_word(w, wlen, WORD_TABLE)
-    return _parse_common("c14_parse_b3", (t, p, mode, w, wlen), prods, 2, md, word)
+    return _parse_common("c14_parse_b3", (t, p, mode, w, wlen), prods, 2, md, w, wlen)
 
 
 # ----------------------------------------------------------------------------------------
